@@ -527,3 +527,160 @@ def names_lemmas():
 
 def all_lemmas():
     return lemmas() + names_lemmas()
+
+
+# ================================================================ (3) GPR._symbolic_gpr: the rule tree -> sympy (a tree homomorphism)
+# sympy expressions are opaque terms (sort NP) built by ASSUMED constructors with an ASSUMED Boolean meaning symsem(e, K)
+# (K = the names that are False):   Symbol(k): k not in K;   Or(*es): some e true;   And(*es): all e true
+# (sympy's Or / And flatten, drop duplicates and return the single argument / the neutral element for <= 1 argument: the meaning is
+# preserved).  Proved: for a well-formed tree with a body the returned expression e satisfies symsem(e, K) == semh(h, tree, K) for
+# the arbitrary K `vis_K`; a rule without body (and `None`) gives exactly Symbol("") (the documented encoding of the empty rule).
+# Precondition when a symbol table is passed: it maps every name k of the tree to Symbol(k) (what the first call builds from
+# expr.genes - proved in the case `nodict`, which uses the proved contract of the GPR.genes getter).
+from pyvc import npalg  # noqa
+from pyvc.npalg import NP, VNp  # noqa
+SeqNP = z3.ArraySort(z3.IntSort(), NP)
+sym_symbol = z3.Function("sympy.Symbol", Id, NP)
+sym_or = z3.Function("sympy.Or", z3.IntSort(), SeqNP, NP)
+sym_and = z3.Function("sympy.And", z3.IntSort(), SeqNP, NP)
+symsem = z3.Function("sympy_sem", NP, IdSet, z3.BoolSort())
+symres = z3.Function("symbolic_gpr_of", RefInt, RefSeq, RefRef, Ref, NP)     # the value _symbolic_gpr returns for a node (call sites)
+EMPTY_NAME = id_lit("")
+
+
+sym_touch = z3.Function("sym_touch", NP, z3.BoolSort(), Ref, z3.BoolSort())
+
+
+def sympy_axioms():
+    VS_, x_ = z3.Const("yVS", RefSeq), z3.Const("yx", Ref)
+    k, K, n, e, i = z3.Const("yk", Id), z3.Const("yK", IdSet), z3.Int("yn"), z3.Const("ye", SeqNP), z3.Int("yi")
+    return [z3.ForAll([k, K], symsem(sym_symbol(k), K) == z3.Not(K[k]), patterns=[symsem(sym_symbol(k), K)]),
+            z3.ForAll([n, e, K], symsem(sym_or(n, e), K) == z3.Exists([i], z3.And(0 <= i, i < n, symsem(e[i], K))),
+                      patterns=[symsem(sym_or(n, e), K)]),
+            z3.ForAll([n, e, K], symsem(sym_and(n, e), K) == z3.ForAll([i], z3.Implies(z3.And(0 <= i, i < n), symsem(e[i], K))),
+                      patterns=[symsem(sym_and(n, e), K)]),
+            # instantiation hint only (satisfied by sym_touch = True): the i-th argument of an And is looked at whenever the i-th
+            # child of some node is
+            z3.ForAll([n, e, K, VS_, x_, i], sym_touch(e[i], symsem(sym_and(n, e), K), VS_[x_][i]), patterns=[z3.MultiPattern(symsem(sym_and(n, e), K), VS_[x_][i])])]
+
+
+def sym_getattr_hook(eng, st, v, name):
+    if isinstance(v, VConc) and v.py == ("module", "sympy.logic.boolalg") and name in ("Or", "And"):
+        return [("ok", st, VFunc("abstract", "spl." + name))]
+    if isinstance(v, VRef) and v.cls == "GPR" and name == "genes":
+        return eng.apply_contract(st, eng.reg.get("GPR.genes@getter/proved"), [v], {})     # the PROVED contract of the getter
+    return None
+
+
+def sym_global_hook(eng, name):
+    if name == "Symbol":
+        return VFunc("abstract", "Symbol")
+    return None
+
+
+def sym_call_abstract_hook(eng, st, f, pos, kw):
+    if f.a == "Symbol":
+        arg = pos[0] if pos else kw.get("name")
+        if arg is None or len(pos) + len(kw) != 1:
+            raise Unsupported("Symbol(...) with other arguments")
+        return [("ok", st, VNp(sym_symbol(unwrap(arg, "id"))))]
+    if f.a in ("spl.Or", "spl.And"):
+        if len(pos) == 1 and not kw and isinstance(pos[0], VConc) and isinstance(pos[0].py, tuple) and pos[0].py[0] == "starred":
+            l = pos[0].py[1]
+            rec = st.objs[l.oid]
+            if rec.get("ekind") != "np":
+                raise Unsupported("spl.Or / spl.And of a list of non-expressions")
+            return [("ok", st, VNp((sym_or if f.a == "spl.Or" else sym_and)(rec["len"], rec["elem"])))]
+        raise Unsupported("spl.Or / spl.And called without *list")
+    return None
+
+
+def _chain_abstract(*hs):
+    def h(eng, st, f, pos, kw):
+        for g in hs:
+            try:
+                r = g(eng, st, f, pos, kw)
+            except Unsupported:
+                r = None
+            if r is not None:
+                return r
+        raise Unsupported(f"abstract call {f.a}")
+    return h
+
+
+HOOKS_SYM = chain_hooks(HOOKS_WK, {"getattr": sym_getattr_hook, "global": sym_global_hook})
+HOOKS_SYM["call_abstract"] = _chain_abstract(sym_call_abstract_hook, call_abstract_hook)
+HOOKS = HOOKS_SYM
+
+
+def _sy_dict_ok(E):
+    d = E["GPRGene_dict"]
+    x = E["expr"].t
+    if isinstance(d, VNone):
+        return z3.BoolVal(True)
+    rec = E.s0.objs[d.oid]
+    if rec.get("lazy") or rec.get("pure"):
+        return z3.BoolVal(False)
+    k = qv("dk", Id)
+    nm = names(*heap3(E, E.s0), x)
+    return z3.Implies(x != NULL, FA([k], z3.Implies(nm[k], z3.And(rec["dom"][k], rec["val"][k] == sym_symbol(k))), patterns=[nm[k]]))
+
+
+def _sy_pre(E):
+    return z3.And(wfh(*heap3(E, E.s0), E["expr"].t), _sy_dict_ok(E))
+
+
+def sym_spec(E, h, x, r):
+    tg, BD = H(E, E.s0, "ast_tag"), h[2]
+    is_root = z3.Or(tg[x] == T_EXPRESSION, tg[x] == T_GPR)
+    empty = z3.Or(x == NULL, z3.And(is_root, BD[x] == NULL))
+    return z3.If(empty, r == sym_symbol(EMPTY_NAME), symsem(r, VIS_K) == semh(*h, x, VIS_K))
+
+
+def _sy_post(E):
+    return sym_spec(E, heap3(E, E.s0), E["expr"].t, E.res.t)
+
+
+def _sy_result(eng, st, E):
+    E2 = Env(E.a, st, eng=eng)
+    return st, VNp(symres(*heap3(E2, st), E["expr"].t))
+
+
+def _sy_axioms(E):
+    return _wk_axioms(E) + sympy_axioms()
+
+
+def _sy_cases():
+    x = lambda E: E["expr"].t  # noqa
+    tg = lambda E: H(E, E.s0, "ast_tag")  # noqa
+    optag = lambda E: tg(E)[H(E, E.s0, "op")[x(E)]]  # noqa
+    nn = lambda E: x(E) != NULL  # noqa
+    has_dict = lambda a, st: not isinstance(a["GPRGene_dict"], VNone)  # noqa
+    out = []
+    for nm, req in (("root", lambda E: z3.And(nn(E), z3.Or(tg(E)[x(E)] == T_EXPRESSION, tg(E)[x(E)] == T_GPR))),
+                    ("Name", lambda E: z3.And(nn(E), tg(E)[x(E)] == T_NAME)),
+                    ("Or", lambda E: z3.And(nn(E), tg(E)[x(E)] == T_BOOLOP, optag(E) == T_OR)),
+                    ("And", lambda E: z3.And(nn(E), tg(E)[x(E)] == T_BOOLOP, optag(E) == T_AND)),
+                    ("none", lambda E: z3.Not(nn(E)))):
+        c = Case("table:" + nm, requires=req, ensures=_sy_post)
+        c.params_override = {"GPRGene_dict": TDict("id", "np")}
+        c.applies = has_dict
+        out.append(c)
+    c = Case("notable:GPR", requires=lambda E: tg(E)[x(E)] == T_GPR, ensures=_sy_post)
+    c.params_override = {"expr": TRef("GPR")}
+    c.applies = lambda a, st: isinstance(a["GPRGene_dict"], VNone)
+    c.domain = c.requires        # without a table the method is called on the GPR object itself (as_symbolic)
+    out.append(c)
+    return out
+
+
+_dn = TNone()
+_dn.default = NONE
+REG.add(Contract(MG, "GPR._symbolic_gpr", "C08", [("self", TRef("GPR")), ("expr", TRef("AstNode", nullable=True)), ("GPRGene_dict", _dn)],
+                 _sy_cases(), pre=_sy_pre, modifies=lambda E: ([("heap", "gpr_genes")] if isinstance(E["GPRGene_dict"], VNone) else []),
+                 axioms=_sy_axioms, key="GPR._symbolic_gpr", result=_sy_result))
+# at call sites (recursive calls inside list comprehensions must not fork): ONE case with the common post-condition of the proved
+# `table:` cases, whose preconditions cover every well-formed node and None (obligation cases-cover-domain#0)
+_sy_any = Case("table:any", ensures=_sy_post)
+_sy_any.applies = lambda a, st: not isinstance(a["GPRGene_dict"], VNone)
+REG.get("GPR._symbolic_gpr").call_cases = [_sy_any]
